@@ -1,6 +1,7 @@
 package main
 
 import (
+	"math/big"
 	"strconv"
 	"fmt"
 	"go/constant"
@@ -338,6 +339,23 @@ func (fr *Frame) enterLoop(h *ssa.BasicBlock, ins []edge, _ *State) *State {
 	for _, a := range lc.auto {
 		t := lc.phiVals[a.phi].(Scalar).T
 		facts = append(facts, a.mk(t))
+	}
+	// The hidden index of a range loop starts at -1 and is incremented only after the test index+1 < limit: with both
+	// inferred counter invariants in place (they are obligations of their own) it lies in [-1, MaxInt64-1], so index+1
+	// cannot wrap. Recording the interval keeps the wrap function out of every term built from the index.
+	{
+		cnt := map[*ssa.Phi]int{}
+		for _, a := range lc.auto {
+			cnt[a.phi]++
+		}
+		for p, n := range cnt {
+			if n == 2 && p.Comment == "rangeindex" {
+				if ev, ok := entryVals[p].(Scalar); ok && (ev.T == "(- 1)" || ev.T == "-1") {
+					hi := new(big.Int).Sub(new(big.Int).Lsh(big.NewInt(1), 63), big.NewInt(2))
+					vc.setRange(lc.phiVals[p].(Scalar).T, big.NewInt(-1), hi)
+				}
+			}
+		}
 	}
 	if lc.spec != nil {
 		env := fr.loopEnv(lc, st, func(p *ssa.Phi) Val { return lc.phiVals[p] })
